@@ -575,7 +575,10 @@ impl ConfigFile {
                             }
                         }
 
-                        _ => unreachable!(),
+                        // Not a unit name. Leave the value alone: the typed
+                        // deserialisation that follows rejects it with a
+                        // proper error instead of a panic.
+                        _ => {}
                     }
                 }
                 if let Some(sources) = unit_table.get_mut("sources") {
@@ -599,12 +602,14 @@ impl ConfigFile {
                                         }
                                     }
 
-                                    _ => unreachable!(),
+                                    // see above
+                                    _ => {}
                                 }
                             }
                         }
 
-                        _ => unreachable!(),
+                        // see above
+                        _ => {}
                     }
                 }
             }
